@@ -1209,7 +1209,7 @@ def _run(entry, tier, seed):
              ['cut_torn', 'torn_writes_not_record_aligned', 'history_only_flushes', 'full_flushes',
               'recovered_at_flush_height', 'recovered_at_previous_height'])
     for k in need:
-        if res.stats.get(k, 0) == 0:
+        if res.stats.get(k, 0) == 0 and not res.violations and not res.disagreements and not common.out_of_time():
             res.harness_errors.append(f'generator never reached {k}')
     return res
 
